@@ -33,3 +33,18 @@ BUILT['C19'] = {
     'level': 'Runtime monitoring: generated API histories (merges and layers interleaved with Documents/Output/OutputDocuments/OutputToWriter in several formats) over directive-rich documents; Documents() must be identical before and after every output call, a repeated output call must return identical bytes, and a control parser replaying only the merges must end with the same documents, merge statuses and outputs. Holds for the histories produced only.',
     'note': 'Trusted: worker snapshot encoding of Documents(). Comparison with the control stops at the first failed merge (partial merges are order-dependent by themselves).',
 }
+BUILT['C10'] = {
+    'technique': 'metamorphic monitor: document with a planted reference vs the same document hand-expanded, both through the real evaluator (in-process worker)',
+    'level': 'Runtime monitoring: for each generated document/stream one reference is planted at a known host ($merge/$replace; map, list, string form; dotted, list, cross-document addressing; chains; hidden templates) and the same document is expanded by hand ($replace: raw subtree; $merge: documented merge of the referenced value onto the local content). The real evaluator must give byte-identical outputs for both, leave the referenced subtree/document unchanged, and fail for dangling paths and patterns matching 0 or >=2 documents. Holds for the executions produced only.',
+    'note': 'Trusted: merge model for the expansion, generators. Host and target never overlap.',
+}
+BUILT['C12'] = {
+    'technique': 'metamorphic monitor: $repeat template rendered as directive vs hand-unrolled copies, both through the real evaluator (in-process worker)',
+    'level': 'Runtime monitoring: token-carrying templates are rendered once with $repeat syntax and once unrolled by the harness (index substituted at exactly the planted places; named counts as cartesian product in lexicographic name order; nested repeats; count overridden by a child layer); outputs of the real evaluator must be byte-identical with exactly n copies; non-integer counts must fail. Fixed sweep over counts 0-5 x positions and all 27 three-name count combinations, plus random templates. Holds for the executions produced only.',
+    'note': 'Trusted: the hand-unroller (harness/bv/props/c12.py expand), merge model for the count override.',
+}
+BUILT['C13'] = {
+    'technique': 'reference monitor by plain concatenation; one worker child per environment batch; CLI sample',
+    'level': 'Runtime monitoring: templates of literal segments and references (document paths, $env:NAME, repeat variable), whole-value and key $env, evaluated by the real library in a child process spawned with the case\'s environment; results must equal the harness\'s plain concatenation, $env results must be strings with exactly the variable\'s bytes, missing references must fail. Holds for the executions produced only.',
+    'note': 'Trusted: generators and expected-string computation. Environment values containing $ are excluded from the generated workload: three recorded known findings (known_findings.json) are re-run on every invocation instead.',
+}
